@@ -192,6 +192,9 @@ def corner_recipes(rng, S):
         ['rscal', -2.0, ['huber', 0.5]] if not S.is_pspace else ['rscal', -2.0, ['l1']],
         ['qp', 4.0, fc.rvec(rng, n, -1, 1, 8), 0.0, ['zero']],  # 2|a| dominates ||u||
         ['breg', fc.rvec(rng, n), 'grad', ['qp', 2.0, None, 0.0, ['l2sq']]],
+        ['ssum', 1.0, ['indlinf']],                            # no gradient: model must say nograd
+        ['sum', ['l2sq'], ['trans', fc.rvec(rng, n), ['indzero', 0.0]]],
+        ['lscal', 2.0, ['rscal', 0.5, ['indlinf']]],
     ]
 
 
@@ -220,6 +223,11 @@ def known_tag(r):
             return True
         return any(has(u) for u in t[1:])
     return ' [scalar-multiple-of-QuadraticPerturb(a=0,constant!=0)-of-linear]' if has(r) else ''
+
+
+def expected_no_gradient(r):
+    """Classes of the generated language that document no `gradient`: the indicators."""
+    return any(c.startswith('ind') for c in fc.recipe_classes(r))
 
 
 def leaf_domain(r):
@@ -298,7 +306,7 @@ def check_tree(ctx, r, S, stream, via_ops, lines, pend, n_pts=2, oracle_only=Fal
         return
     classes = tuple(sorted(set(fc.recipe_classes(r))))
     try:
-        w = None if oracle_only else fc.wire(f, S)
+        w = None if oracle_only else fc.wire(f, S, need_inverse=False)
     except NoModel as e:
         w = None
         ctx.hit('oracle-only:' + str(e)[:40])
@@ -346,16 +354,21 @@ def check_tree(ctx, r, S, stream, via_ops, lines, pend, n_pts=2, oracle_only=Fal
             if w is not None:
                 lines.append('val f={} w={} x={}'.format(w, fc.wl(S), fl(xs)))
                 pend.append(('val', desc, v, S, classes, stream))
-            if not math.isfinite(v):
+            if not math.isfinite(v) and not expected_no_gradient(r):
                 continue
         # gradient / derivative
         st, g = safe_call(lambda: f.gradient(x))
         if st != 'ok':
-            if 'NotImplementedError' in st:
-                ctx.hit('nograd/' + top)
-                continue
-            ctx.violation('gradient-raises:{} {}'.format(st.split(':')[1], key0),
-                          'f.gradient(x) raised ' + st, desc)
+            # never skipped silently: for a modelled tree the model must say `nograd`; a raise is
+            # legitimate only for trees that contain a class without `gradient` (indicators)
+            ctx.hit('grad-raises/' + top)
+            if w is not None:
+                lines.append('grad f={} w={} x={}'.format(w, fc.wl(S), fl(xs)))
+                pend.append(('grad', desc, 'raised:' + st, S, classes, stream))
+            if not ('NotImplementedError' in st and expected_no_gradient(r)):
+                ctx.violation('gradient-raises:{} {}'.format(st.split(':')[1], key0),
+                              'f.gradient(x) raised ' + st, desc)
+            ctx.case(('nograd', S.kind, classes))
             continue
         if g not in S.space:
             ctx.violation('gradient ' + key0, 'gradient(x) is not in the domain', desc)
@@ -394,7 +407,10 @@ def lipschitz_oracle(ctx, f, S, L, dom, desc0, key0, classes, n_pairs=8):
     rng = ctx.rng
     try:
         G = f.gradient
-    except Exception:  # noqa
+    except Exception as e:  # noqa
+        if not expected_no_gradient(desc0['recipe']):
+            ctx.violation('gradient-raises:{} {}'.format(type(e).__name__, key0),
+                          'f.gradient raised {} although grad_lipschitz = {}'.format(e, L), desc0)
         return
     worst = 0.0
     for i in range(n_pairs):
@@ -476,6 +492,10 @@ def compare(ctx, pend, outs):
                 else:
                     ok = close(impl, float(m), 1.0, 1e-9, 1e-9)
             if not ok:
+                ctx.disagree(d2, impl, ans)
+            continue
+        if op == 'grad' and isinstance(impl, str) and impl.startswith('raised:'):
+            if ans != 'nograd':
                 ctx.disagree(d2, impl, ans)
             continue
         if op == 'grad':
